@@ -316,3 +316,17 @@ META = {
         "technique": "Lean 4 instance of the reassembly/composition theorem over dc sender/receiver skeletons + regenerated-constant bridges + simulated end-to-end dc streams with fault injection",
     },
 }
+
+# additions of the 2026-09-23 session (in-crate hook, translator for the state machines, timers)
+META["C12"]["text"] += (" The REAL crate-private `DataSender` (Transmissions, Buffer, interval sets) is additionally run in-crate against the Lean "
+                        "data-sender model line by line (cfg-guarded hook, part C12_datasender), and real `StreamImpl` send halves are driven with adversarial "
+                        "ack / loss / limit / reset histories whose wire-level history must be admitted by the Lean `send-trace` acceptor (part C12_sendstreams).")
+META["C03"]["text"] += (" Real `StreamImpl` send halves with their `StreamFlowController` and a shared `OutgoingConnectionFlowController` are additionally driven "
+                        "in-crate (cfg-guarded hook) with adversarial write / ack / loss / MAX_DATA / MAX_STREAM_DATA / reset histories; the wire-level history must be "
+                        "admitted by the Lean `send-trace` acceptor and satisfy an independent oracle (part C03_sendstreams).")
+META["C02"]["text"] += (" Timers: `Timer`, `has_elapsed`, the `Provider`/`Query` minimum over armed timers and the wake-up soundness of sleeping until "
+                        "`next_expiration` are modelled (translator + bridge), proved (`timer_next_expiration_is_min`, `timer_poll_ready_iff`, `timer_wake_sound`) and run "
+                        "against the real types (part C02_timer; its pacer half supports C10).")
+META["C20"]["text"] += (" The protocol state machines defined with the `event!` macro (core `Sender` / `Receiver`, dc send / recv workers, dc handshake, dc manager) are "
+                        "REGENERATED from the source by a translator on every run; RFC 9000 figure 2/3 agreement, absorbing terminal states, strict rank (bounded progress) "
+                        "and reset-is-forever are proved about the generated machines and the public ones are run against the real types (part C20_states).")
